@@ -29,17 +29,20 @@ import (
 	"go/token"
 	"sort"
 	"strconv"
+	"strings"
 )
 
 type globalsInfo struct {
-	vars    map[string]bool          // all package-level variable names
-	written map[string]bool          // the written ones
-	top     map[*ast.ValueSpec]bool  // top-level var specs
+	vars    map[string]bool         // all package-level variable names
+	written map[string]bool         // the written ones
+	top     map[*ast.ValueSpec]bool // top-level var specs
 	specOf  map[string]*ast.ValueSpec
+	noReset map[string]bool   // set up by init functions or //go:embed: never re-initialised
+	embeds  map[string]string // variable -> its //go:embed directive line
 }
 
 func collectGlobals(files []*ast.File) *globalsInfo {
-	g := &globalsInfo{vars: map[string]bool{}, written: map[string]bool{}, top: map[*ast.ValueSpec]bool{}, specOf: map[string]*ast.ValueSpec{}}
+	g := &globalsInfo{vars: map[string]bool{}, written: map[string]bool{}, top: map[*ast.ValueSpec]bool{}, specOf: map[string]*ast.ValueSpec{}, noReset: map[string]bool{}, embeds: map[string]string{}}
 	for _, f := range files {
 		for _, d := range f.Decls {
 			gd, ok := d.(*ast.GenDecl)
@@ -50,6 +53,17 @@ func collectGlobals(files []*ast.File) *globalsInfo {
 				vs := sp.(*ast.ValueSpec)
 				g.top[vs] = true
 				syncy := mentionsSync(vs)
+				for _, doc := range []*ast.CommentGroup{gd.Doc, vs.Doc} {
+					if doc == nil {
+						continue
+					}
+					for _, cm := range doc.List {
+						if strings.HasPrefix(cm.Text, "//go:embed ") && len(vs.Names) == 1 {
+							g.embeds[vs.Names[0].Name] = cm.Text
+							g.noReset[vs.Names[0].Name] = true
+						}
+					}
+				}
 				for _, n := range vs.Names {
 					if n.Name == "_" {
 						continue
@@ -68,6 +82,16 @@ func collectGlobals(files []*ast.File) *globalsInfo {
 			switch x := d.(type) {
 			case *ast.FuncDecl:
 				if x.Recv == nil && x.Name.Name == "init" {
+					// state set up by init is not re-created by zzResetGlobals
+					if x.Body != nil {
+						save := g.written
+						g.written = map[string]bool{}
+						g.findWrites(x.Body)
+						for n := range g.written {
+							g.noReset[n] = true
+						}
+						g.written = save
+					}
 					continue
 				}
 				if x.Body != nil {
@@ -463,6 +487,11 @@ func (g *globalsInfo) resetStmts(f *ast.File) []ast.Stmt {
 					any = true
 				}
 			}
+			for _, n := range vs.Names {
+				if g.noReset[n.Name] {
+					any = false
+				}
+			}
 			if !any {
 				continue
 			}
@@ -485,6 +514,18 @@ func (g *globalsInfo) resetStmts(f *ast.File) []ast.Stmt {
 		}
 	}
 	return reset
+}
+
+// notReset lists written variables that zzResetGlobals leaves alone.
+func (g *globalsInfo) notReset() []string {
+	var l []string
+	for n := range g.written {
+		if g.noReset[n] {
+			l = append(l, n)
+		}
+	}
+	sort.Strings(l)
+	return l
 }
 
 func (g *globalsInfo) writtenNames() []string {
